@@ -3,7 +3,10 @@
 (* One trace = a handful of independent records produced by the real code;    *)
 (* every record is judged by the clauses of MuxWire; the first failing clause *)
 (* is the verdict of the trace.                                               *)
-EXTENDS MuxWire, Json, IOUtils
+(* Stream mode (MuxStreamAbs): a trace is the life of one connection of the   *)
+(* real client stack -- dispatches supplied (Sup), byte chunks accepted by    *)
+(* the connection (Bytes), Closed, End -- judged by the stream machine.       *)
+EXTENDS MuxStreamAbs, Json, IOUtils
 
 Traces == ndJsonDeserialize(IOEnv.TRACE_FILE)
 
@@ -16,24 +19,36 @@ TInit == /\ tid \in 1..Len(Traces)
          /\ l = 1
          /\ verdict = "ok"
          /\ AInit
+         /\ SInit
 
 CheckOf(e) ==
   CASE e.e = "Disp" -> DispCheck(e)
     [] e.e = "Disc" -> DiscCheck(e)
     [] e.e = "Ping" -> PingCheck(e)
     [] e.e = "Hdr"  -> HdrCheck(e)
+    [] e.e = "Sup"    -> SupCheck(e.ctx, e.payload)
+    [] e.e = "Bytes"  -> BytesCheck(e.data)
+    [] e.e = "Closed" -> ClosedCheck(e.mid)
+    [] e.e = "End"    -> EndCheck
     [] OTHER -> "harness.unknownEvent"
+
+UpdOf(e) ==
+  CASE e.e = "Sup"    -> SupUpd(e.ctx, e.payload) /\ UNCHANGED avars
+    [] e.e = "Bytes"  -> BytesUpd(e.data) /\ UNCHANGED avars
+    [] e.e = "Closed" -> ClosedUpd(e.mid) /\ UNCHANGED avars
+    [] e.e = "End"    -> EndUpd /\ UNCHANGED avars
+    [] OTHER -> AUpd /\ UNCHANGED svars          \* independent (input, bytes) records
 
 TNext == /\ verdict = "ok"
          /\ l <= Len(Ev)
          /\ LET e == Ev[l]
                 chk == CheckOf(e)
             IN IF chk = "ok"
-               THEN AUpd /\ l' = l + 1 /\ verdict' = "ok"
-               ELSE verdict' = chk /\ l' = l /\ UNCHANGED avars
+               THEN UpdOf(e) /\ l' = l + 1 /\ verdict' = "ok"
+               ELSE verdict' = chk /\ l' = l /\ UNCHANGED <<avars, svars>>
          /\ UNCHANGED tid
 
-TSpec == TInit /\ [][TNext]_<<avars, tvars>>
+TSpec == TInit /\ [][TNext]_<<avars, svars, tvars>>
 
 Done == verdict # "ok" \/ l > Len(Ev)
 Report == Done => PrintT(<<"V", tid, l - 1, verdict>>)
